@@ -63,9 +63,9 @@ class Explorer:
 
     def one(self, strategy, cfg, tc, file0, verdicts, clock=(), exc_class=TestRaised,
             atom="line", stream="run", load=False, extra="", model=True, cap=5000,
-            replay=False):
+            replay=False, auto_tmp=False):
         run = impl_run(strategy, cfg, tc, file0, verdicts, clock=clock, exc_class=exc_class,
-                       atom=atom, load=load, cap=cap)
+                       atom=atom, load=load, cap=cap, auto_tmp=auto_tmp)
         ctx = {"strategy": strategy, "cfg": cfg, "tc": tc if not load else run.loaded,
                "file0": file0, "verdicts": verdicts, "clock": list(clock), "atom": atom,
                "exc_class": exc_class.__name__, "load": load}
